@@ -9,3 +9,10 @@ def run(chk, args):
     if args.replay:
         return brokerlib.replay(chk, "C03", args.replay)
     brokerlib.pipeline(chk, "C03", chk.tier, chk.seed)
+
+
+MANIFEST = {
+    "technique": 'TLA+ spec Broker: MatchRight/NATCompatible model-checked over all NAT x load populations of <=3 waiting proxies; pop events logged under the matching lock (heap root, pool size) validated by TLC against the trace spec on replays and herds',
+    "text": 'Pool selection, refusal condition and least-load choice are action properties of ClientMatch, checked exhaustively on the model and on every recorded pop of the real code: the hook inside the matching lock logs the decoded NAT, the pool size and the heap root the pop returns; TLC reconstructs the heaps from add/pop/remove events and rejects a pop that is not a minimum of the eligible pool or a refusal with a non-empty pool.',
+    "note": 'Bounded populations (<=3 waiting per scenario in replays, up to 12+ in herds, loads 0/8/16/24); ties are accepted in either order; wire NAT values absent/empty/three names.',
+}
